@@ -358,6 +358,19 @@ def shape_articles(opts=None, exclude=(), include=(), key='int', aliased=False, 
     return {'classes': classes, 'options': dict(opts or {}), 'plugins': list(plugins)}
 
 
+def shape_nvparent(opts=None, plugins=()):
+    """Category (NOT versioned) 1-n Article (versioned, no delete cascade): deleting a category makes the ORM
+    null the articles' foreign key inside the flush"""
+    classes = [
+        {'name': 'Category', 'table': 'category', 'versioned': None, 'columns': [col('id', 'int', pk=True), col('title', 'str')],
+         'rels': []},
+        {'name': 'Article', 'table': 'article', 'versioned': {}, 'columns': [
+            col('id', 'int', pk=True), col('name', 'str'), col('category_id', 'int', fk='category.id')],
+         'rels': [{'name': 'category', 'target': 'Category', 'kind': 'm2o', 'backref': 'articles'}]},
+    ]
+    return {'classes': classes, 'options': dict(opts or {}), 'plugins': list(plugins)}
+
+
 def shape_composite_t(opts=None, plugins=()):
     return {'classes': [{'name': 'Item', 'table': 'item', 'versioned': {}, 'columns': [
         col('a', 'int', pk=True), col('b', 'int', pk=True), col('name', 'str'), col('qty', 'int')], 'rels': []}],
